@@ -57,7 +57,7 @@ def main():
         ps = props or (impl if allchecks else ([own] if own in impl else []))
         if ps:
             jobs.append((m, ps))
-    with ThreadPoolExecutor(16) as ex:
+    with ThreadPoolExecutor(int(os.environ.get("SEED_JOBS", "16"))) as ex:
         results = list(ex.map(lambda j: run_one(*j), jobs))
     caught = 0
     for mid, res in results:
